@@ -240,8 +240,8 @@ def replay_validate(ctx, name, driver_mod, driver_args, behaviours, trace_module
         os.makedirs(os.path.join(cw, "v-x"), exist_ok=True)
         r = validate(out, cw, "x")
         if r.accepted:
-            ctx.notes.append("rejection of behaviour %d in %s did not reproduce on re-run (not reported)" %
-                             (rj["index"], name))
+            ctx.notes.append("rejection of behaviour %d in %s did not reproduce on re-run (not reported); event %d: %s"
+                             % (rj["index"], name, rj["event_no"], rj["event"][:1500]))
             continue
         rj["rerun_event"] = open(out).readlines()[r.matched].strip() if r.matched < r.total else ""
         rj["rerun_trace"] = out
